@@ -18,3 +18,14 @@ Theorem C15_result_posted_only_if_pending_and_unaltered :
                                  forall w, In w tail -> match w with WSend _ => False | _ => True end).
 Proof. exact result_posted_only_if_pending_and_unaltered. Qed.
 Print Assumptions C15_result_posted_only_if_pending_and_unaltered.
+
+(* "once": an answered operation is retired - an answer carrying the same operation id is refused
+   afterwards and changes nothing *)
+Require Import Node.Once.
+Theorem C15_answered_operation_is_retired :
+  forall st x h x',
+  execute_operation {| h_st := st; h_tr := [] |} x = ROk h tt ->
+  op_same_id (ox_ident x') (ox_ident x) = true ->
+  execute_operation {| h_st := h_st h; h_tr := [] |} x' = RErr {| h_st := h_st h; h_tr := [] |}.
+Proof. exact answered_operation_is_retired. Qed.
+Print Assumptions C15_answered_operation_is_retired.
